@@ -48,6 +48,12 @@ def expand_structural(n, mf, has_fork, fork_k, has_foreign):
         m.append({"kind": "swap_fork"})
         m.append({"kind": "add_fork"})
         m.append({"kind": "end_in_fork"})
+    if n >= 2:
+        # the patches without their base, opened with the documented allow_baseless option and
+        # merged: the result is still no complete record
+        m.append({"kind": "merged_baseless", "j": 1})
+        if n >= 3:
+            m.append({"kind": "merged_baseless", "j": n - 1})
     # the same record with an unfinished (uncommitted) patch on top: everything committed
     # below it is still protected
     m.append({"kind": "tail_none"})
@@ -434,6 +440,32 @@ class FilesetEngine:
             elif k == "extend":
                 b += bytes(m.get("n", 1))
             open(p, "wb").write(bytes(b))
+            exp = ("reject",)
+        elif k == "merged_baseless":
+            from pathlib import Path
+
+            j = m["j"]
+            name = files[0][: -len(".ih5")]
+            rest = [Path(os.path.join(d, f)) for f in files[j:]]
+            mdir = os.path.join(d, "mb")
+            os.makedirs(mdir)
+            try:
+                rec = self._cls._open(rest, allow_baseless=True)
+                try:
+                    rec.merge_files(Path(os.path.join(mdir, name)))
+                finally:
+                    rec.close()
+            except Exception:
+                return None  # merging a base-less set is refused: nothing to open
+            for f in list(order):
+                os.unlink(os.path.join(d, f))
+                if os.path.exists(os.path.join(d, f + "mf.json")):
+                    os.unlink(os.path.join(d, f + "mf.json"))
+            order = []
+            for f in sorted(os.listdir(mdir)):
+                shutil.move(os.path.join(mdir, f), os.path.join(d, f))
+                if f.endswith(".ih5"):
+                    order.append(f)
             exp = ("reject",)
         elif k.startswith("tail_"):
             # an unfinished patch is put on top with the library itself, then the committed part
